@@ -582,7 +582,7 @@ import re as _re
 # library operations that multiply their operands (or components of them) with one another
 PRODUCT_OPS = _re.compile(r'(::mul$|::mul_assign$|::dot$|::cross$|::determinant$|::length_squared$|::length$|::distance_squared$|::distance$|::project_onto$|::powi$|::normalize$)')
 # library calls that move/borrow/select values without computing with them
-NONOBSERVING = _re.compile(r'(::clone$|::into$|::from$|::deref(_mut)?$|::index(_mut)?$|::as_ref$|::as_mut$|::as_slice$|::len$|^std::option::Option::|^std::boxed::|::new_uninit$|^std::vec::Vec::<T>::new$|glam::DVec3::new$|glam::DVec3::from_array$|glam::DVec3::to_array$)')
+NONOBSERVING = _re.compile(r'(::clone$|::into$|::from$|::deref(_mut)?$|::index(_mut)?$|::as_ref$|::as_mut$|::as_slice$|::len$|^std::option::Option::|^std::boxed::|::new_uninit$|^std::vec::Vec::<T>::new$|glam::DVec3::new$|glam::DVec3::from_array$|glam::DVec3::to_array$|glam::DVec3::select$|glam::BVec3::new$|glam::BVec3::splat$)')
 
 
 class Interp:
